@@ -129,7 +129,10 @@ class Layout2D:
 
         return Layout2D(
             original_roe_corner=self.original_roe_corner,
-            shape_2d=self.shape_2d,
+            shape_2d=(
+                extraction_region[1] - extraction_region[0],
+                extraction_region[3] - extraction_region[2],
+            ),
             parallel_overscan=parallel_overscan,
             serial_prescan=serial_prescan,
             serial_overscan=serial_overscan,
